@@ -751,6 +751,25 @@ func (a *Agent) connectivityChecks() { //nolint:cyclop
 
 		timer.Reset(interval)
 
+		if verifhook.On && a.loop.Err() != nil {
+			// A pending check request and the closed loop may both be ready; the runtime would
+			// choose at random, the deterministic simulator chooses here instead.
+			switch verifhook.Pick("agent.connectivityChecks.select", 2) {
+			case 0:
+				select {
+				case <-a.forceCandidateContact:
+					contact()
+
+					continue
+				default:
+				}
+			case 1:
+				timer.Stop()
+
+				return
+			}
+		}
+
 		select {
 		case <-a.forceCandidateContact:
 			if !timer.Stop() {
